@@ -99,7 +99,7 @@ Proof.
   intros HA HN. apply (fold_ERInv H G HN _ [] ∅).
   - split; [by intros ?? ?%lookup_empty_Some|set_solver].
   - by intros ??? ?%lookup_empty_Some.
-  - apply Forall_forall. intros t. by apply triples_good.
+  - apply Forall_forall. intros t. apply triples_good. by apply AInv_VAInv.
 Qed.
 
 (** the merged rule set of a reaction is exactly its own rule *)
@@ -121,7 +121,7 @@ Proof.
     eapply (Hag (t_e t) (t_e t') rx rx2 (t_u t') (t_v t')); eauto; rewrite <-?Hu, <-?Hv; eauto.
   - intros ->. destruct (H2 e rx Hrx) as [Hl Hr].
     apply map_choose in Hl as (u & c & Hu). apply map_choose in Hr as (v & d & Hv).
-    destruct (triple_of_tuple H G HA e rx u c v d Hrx Hu Hv) as [a Hin].
+    destruct (triple_of_tuple H G (AInv_VAInv _ _ HA) e rx u c v d Hrx Hu Hv) as [a Hin].
     exists (u, v, a, e). split; [done|]. split; [done|]. cbn.
     apply elem_of_list_bind in Hin as ([[u' v'] a'] & Hin1 & Harc%elem_of_map_to_list).
     apply elem_of_list_fmap in Hin1 as (e1 & Heq & _). cbn in Heq.
@@ -140,7 +140,7 @@ Proof.
   set (G := hypergraph_to_species_graph include_mol H) in *.
   unfold species_graph_to_hypergraph. rewrite (entries_flat G) by (intros; eapply ai_ne; eauto).
   fold (sg_ents G). cbn [orb].
-  pose proof (sg_ents_spec H G HA HN H2) as Hspec. pose proof (sg_ents_dom H G HA HN H2) as Hdom.
+  pose proof (sg_ents_spec H G (AInv_VAInv _ _ HA) HN H2) as Hspec. pose proof (sg_ents_dom H G (AInv_VAInv _ _ HA) HN H2) as Hdom.
   rewrite bool_decide_eq_false_2.
   2:{ intros (e & ent & He & Hc). destruct (Hspec e ent He) as (rx & _ & Hcl & _). congruence. }
   set (l := sort_by_key (map_to_list (sg_ents G))).
